@@ -271,30 +271,39 @@ Section Proofs.
 
   (* ---------------- reference semantics of the setters ---------------- *)
   Section Roundtrip.
-    (* H-addr: re-serialising a parsed address and parsing it again gives the same address *)
-    Hypothesis H_roundtrip : forall s a, parse s = Some a -> parse (addr_string a) = Some a.
+    (* H-addr: re-serialising a parsed address and parsing it again gives the same address — for every display
+       name outside the class q_backslash_name (for that class net/mail.Address.String writes what ParseAddress
+       rejects: C06_haddr_backslash_q_refuted, known finding dispname-backslash-q-encoded-word) *)
+    Hypothesis H_roundtrip : forall s a, parse s = Some a -> q_backslash_name (a_name a) = false ->
+      parse (addr_string a) = Some a.
 
-    Definition from_parse (m : amap) : Prop :=
-      forall k a, In a (lookup m k) -> exists s, parse s = Some a.
+    Definition ok_addr (a : addr) : Prop := (exists s, parse s = Some a) /\ q_backslash_name (a_name a) = false.
+    Definition from_parse (m : amap) : Prop := forall k a, In a (lookup m k) -> ok_addr a.
+    (* a string that does not denote a name of the class / a call none of whose arguments does *)
+    Definition clean_val (v : bytes) : Prop := forall a, parse v = Some a -> q_backslash_name (a_name a) = false.
+    Definition clean_call (c : call) : Prop := Forall clean_val (call_values encode_string c).
 
-    Lemma parse_all_from_parse : forall vals l, parse_all vals = Some l ->
-      forall a, In a l -> exists s, parse s = Some a.
+    Lemma parse_all_from_parse : forall vals l, Forall clean_val vals -> parse_all vals = Some l ->
+      forall a, In a l -> ok_addr a.
     Proof.
-      induction vals as [|v vals IH]; simpl; intros l H a Ha.
+      induction vals as [|v vals IH]; simpl; intros l C H a Ha.
       - inversion H; subst. destruct Ha.
-      - destruct (parse v) eqn:Pv; [|discriminate]. destruct (parse_all vals) eqn:Pa; [|discriminate].
-        inversion H; subst. destruct Ha as [<-|Ha]; [exists v; exact Pv|]. eapply IH; eauto.
+      - inversion C as [|? ? C1 C2]; subst.
+        destruct (parse v) eqn:Pv; [|discriminate]. destruct (parse_all vals) eqn:Pa; [|discriminate].
+        inversion H; subst. destruct Ha as [<-|Ha]; [split; [exists v; exact Pv|apply C1; exact Pv]|]. eapply IH; eauto.
     Qed.
 
-    Lemma parse_valid_from_parse : forall vals a, In a (parse_valid vals) -> exists s, parse s = Some a.
+    Lemma parse_valid_from_parse : forall vals, Forall clean_val (map encode_string vals) ->
+      forall a, In a (parse_valid vals) -> ok_addr a.
     Proof.
-      induction vals as [|v vals IH]; simpl; intros a Ha; [destruct Ha|].
-      destruct (parse (encode_string v)) eqn:Pv; [|apply IH; exact Ha].
-      destruct Ha as [<-|Ha]; [eexists; exact Pv|apply IH; exact Ha].
+      induction vals as [|v vals IH]; simpl; intros C a Ha; [destruct Ha|].
+      inversion C as [|? ? C1 C2]; subst.
+      destruct (parse (encode_string v)) eqn:Pv; [|apply IH; assumption].
+      destruct Ha as [<-|Ha]; [split; [eexists; exact Pv|apply C1; exact Pv]|apply IH; assumption].
     Qed.
 
     Lemma store_from_parse : forall m h l, from_parse m ->
-      (forall a, In a l -> exists s, parse s = Some a) -> from_parse (store m h l).
+      (forall a, In a l -> ok_addr a) -> from_parse (store m h l).
     Proof.
       intros m h l Hm Hl k a Ha.
       destruct (bytes_eqb k h) eqn:E.
@@ -305,18 +314,11 @@ Section Proofs.
       - apply bytes_eqb_neq in E. rewrite store_other in Ha by exact E. eapply Hm; exact Ha.
     Qed.
 
-    Lemma set_addr_header_from_parse : forall m h vals, from_parse m ->
+    Lemma set_addr_header_from_parse : forall m h vals, from_parse m -> Forall clean_val vals ->
       from_parse (fst (set_addr_header m h vals)).
     Proof.
-      intros m h vals Hm. unfold MsgAddr.set_addr_header. destruct (parse_all vals) eqn:P; simpl; [|exact Hm].
-      apply store_from_parse; [exact Hm|]. eapply parse_all_from_parse; exact P.
-    Qed.
-
-    Lemma apply_call_from_parse : forall m c, from_parse m -> from_parse (fst (apply_call m c)).
-    Proof.
-      intros m c Hm. destruct c; simpl; unfold MsgAddr.add_addr, MsgAddr.set_addr_header_ign;
-        try (apply set_addr_header_from_parse; exact Hm);
-        simpl; apply store_from_parse; try exact Hm; apply parse_valid_from_parse.
+      intros m h vals Hm C. unfold MsgAddr.set_addr_header. destruct (parse_all vals) eqn:P; simpl; [|exact Hm].
+      apply store_from_parse; [exact Hm|]. eapply parse_all_from_parse; [exact C|exact P].
     Qed.
 
     Lemma parse_all_app : forall l1 l2,
@@ -333,11 +335,11 @@ Section Proofs.
     Qed.
 
     Lemma parse_all_reserialised : forall l,
-      (forall a, In a l -> exists s, parse s = Some a) ->
+      (forall a, In a l -> ok_addr a) ->
       parse_all (map addr_string l) = Some l.
     Proof.
       induction l as [|a l IH]; intro H; simpl; [reflexivity|].
-      destruct (H a (or_introl eq_refl)) as [s Hs]. rewrite (H_roundtrip _ _ Hs).
+      destruct (H a (or_introl eq_refl)) as [[s Hs] Hq]. rewrite (H_roundtrip _ _ Hs Hq).
       rewrite IH; [reflexivity|]. intros b Hb. apply H. right. exact Hb.
     Qed.
 
@@ -350,39 +352,58 @@ Section Proofs.
       simpl. destruct (parse v); reflexivity.
     Qed.
 
+    Lemma spec_add_from_parse : forall m h v, from_parse m -> clean_val v ->
+      from_parse (fst (spec_add parse m h v)).
+    Proof.
+      intros m h v Hm C. unfold spec_add. destruct (parse v) as [a|] eqn:P; simpl; [|exact Hm].
+      apply store_from_parse; [exact Hm|]. intros b Hb. apply in_app_or in Hb. destruct Hb as [Hb|[<-|[]]].
+      - eapply Hm; exact Hb.
+      - split; [exists v; exact P|apply C; exact P].
+    Qed.
+
+    Lemma apply_call_from_parse : forall m c, from_parse m -> clean_call c -> from_parse (fst (apply_call m c)).
+    Proof.
+      intros m c Hm C. unfold clean_call in C.
+      destruct c; simpl in *; unfold MsgAddr.set_addr_header_ign;
+        try (apply set_addr_header_from_parse; assumption);
+        try (rewrite add_addr_spec by exact Hm; apply spec_add_from_parse; [exact Hm|inversion C; assumption]);
+        simpl; apply store_from_parse; try exact Hm; apply parse_valid_from_parse; exact C.
+    Qed.
+
     Lemma apply_call_spec : forall m c, from_parse m -> apply_call m c = spec_call m c.
     Proof. intros m c Hm. destruct c; try reflexivity; simpl; apply add_addr_spec; exact Hm. Qed.
 
-    Lemma run_spec_from : forall calls m, from_parse m ->
+    Lemma run_spec_from : forall calls m, from_parse m -> Forall clean_call calls ->
       run calls m = spec_run calls m /\ from_parse (run calls m).
     Proof.
       unfold MsgAddr.run, MsgAddr.spec_run.
-      induction calls as [|c calls IH]; intros m Hm; simpl; [split; [reflexivity|exact Hm]|].
-      rewrite <- (apply_call_spec m c Hm). apply IH. apply apply_call_from_parse. exact Hm.
+      induction calls as [|c calls IH]; intros m Hm C; simpl; [split; [reflexivity|exact Hm]|].
+      inversion C as [|? ? C1 C2]; subst.
+      rewrite <- (apply_call_spec m c Hm). apply IH; [|exact C2]. apply apply_call_from_parse; assumption.
     Qed.
 
     Lemma from_parse_empty : from_parse [].
     Proof. intros k a Ha. destruct Ha. Qed.
 
-    Theorem setter_semantics : forall calls, run calls [] = spec_run calls [].
-    Proof. intro calls. apply run_spec_from. apply from_parse_empty. Qed.
+    Theorem setter_semantics : forall calls, Forall clean_call calls -> run calls [] = spec_run calls [].
+    Proof. intros calls C. apply run_spec_from; [apply from_parse_empty|exact C]. Qed.
 
     (* one occurrence per successful Add call, earlier entries untouched *)
-    Theorem add_appends_one : forall calls s v a,
+    Theorem add_appends_one : forall calls s v a, Forall clean_call calls ->
       parse v = Some a -> slot_hdr s <> hdr_from ->
       let m := run calls [] in
       lookup (fst (apply_call m (CAdd s v))) (slot_hdr s) = lookup m (slot_hdr s) ++ [a]
       /\ snd (apply_call m (CAdd s v)) = true.
     Proof.
-      intros calls s v a Pv Hs m.
-      assert (Hm : from_parse m) by (apply run_spec_from; apply from_parse_empty).
+      intros calls s v a CC Pv Hs m.
+      assert (Hm : from_parse m) by (apply run_spec_from; [apply from_parse_empty|exact CC]).
       simpl. rewrite add_addr_spec by exact Hm. unfold spec_add. rewrite Pv. simpl.
       rewrite store_same. unfold stored. apply bytes_eqb_neq in Hs. rewrite Hs. split; reflexivity.
     Qed.
     (* the same for Add...Format(name, address), and spelled out per field: the display NAMES and the
        addresses already stored are untouched by the re-serialise / re-parse round of addAddr, the new
        entry carries the parsed name, and no other header changes *)
-    Theorem add_keeps_names_and_addresses : forall calls s c v a,
+    Theorem add_keeps_names_and_addresses : forall calls s c v a, Forall clean_call calls ->
       (c = CAdd s v \/ exists n ad, c = CAddFormat s n ad /\ v = format_addr n ad) ->
       parse v = Some a -> slot_hdr s <> hdr_from ->
       let m := run calls [] in
@@ -392,8 +413,8 @@ Section Proofs.
       /\ (forall k, k <> slot_hdr s -> lookup m' k = lookup m k)
       /\ snd (apply_call m c) = true.
     Proof.
-      intros calls s c v a Hc Pv Hs m m'.
-      assert (Hm : from_parse m) by (apply run_spec_from; apply from_parse_empty).
+      intros calls s c v a CC Hc Pv Hs m m'.
+      assert (Hm : from_parse m) by (apply run_spec_from; [apply from_parse_empty|exact CC]).
       assert (E : apply_call m c = spec_add parse m (slot_hdr s) v).
       { destruct Hc as [->|[n [ad [-> ->]]]]; simpl; apply add_addr_spec; exact Hm. }
       assert (K : call_key c = slot_hdr s) by (destruct Hc as [->|[n [ad [-> _]]]]; reflexivity).
@@ -413,7 +434,7 @@ Section Proofs.
     (* after ANY call sequence: a successful Add...Format(name, address) appends one entry whose display
        name is the name argument itself; a successful FromFormat / EnvelopeFromFormat / ReplyToFormat leaves
        exactly one entry with that name *)
-    Theorem format_call_stores_name : forall calls name address, forallb qs_byte name = true ->
+    Theorem format_call_stores_name : forall calls name address, Forall clean_call calls -> forallb qs_byte name = true ->
       let m := run calls [] in
       (forall s, slot_hdr s <> hdr_from -> snd (apply_call m (CAddFormat s name address)) = true ->
          exists a, lookup (fst (apply_call m (CAddFormat s name address))) (slot_hdr s) = lookup m (slot_hdr s) ++ [a]
@@ -422,8 +443,8 @@ Section Proofs.
          snd (apply_call m c) = true ->
          exists a, lookup (fst (apply_call m c)) (call_key c) = [a] /\ a_name a = name).
     Proof.
-      intros calls name address Hn m.
-      assert (Hm : from_parse m) by (apply run_spec_from; apply from_parse_empty).
+      intros calls name address CC Hn m.
+      assert (Hm : from_parse m) by (apply run_spec_from; [apply from_parse_empty|exact CC]).
       pose proof (format_name_roundtrip name address Hn) as R.
       split.
       - intros s Hs Hok. simpl in *. rewrite add_addr_spec in * by exact Hm. unfold spec_add in *.
@@ -493,3 +514,23 @@ Section Proofs.
     intros. apply render_addr_eq_off_bcc. apply run_eq_off_bcc. intros k _. reflexivity.
   Qed.
 End Proofs.
+
+(* ------------------------------------------------------------------ *)
+(* H-addr fails for the class q_backslash_name (net/mail, go1.23)      *)
+(* ------------------------------------------------------------------ *)
+(* The values of the real functions at the witness (reproduced on every run by the harness, corpus case w8):
+   ParseAddress of  DQUOTE e-acute backslash backslash x DQUOTE <a@x.test>  has the Name  e-acute backslash x;
+   Address.String of it is the Q encoded-word below with the backslash raw inside; ParseAddress rejects that. *)
+Definition wit_name : bytes := [195; 169; 92; 120].
+Definition wit_in : bytes := 34 :: 195 :: 169 :: 92 :: 92 :: 120 :: 34 :: bs " <a@x.test>".
+Definition wit_str : bytes := bs "=?utf-8?q?=C3=A9\x?= <a@x.test>".
+Definition wit_parse (s : bytes) : option addr :=
+  if bytes_eqb s wit_in then Some (mkAddr wit_name (bs "a@x.test")) else None.
+Definition wit_string (a : addr) : bytes := wit_str.
+
+Example haddr_backslash_q_refuted :
+  q_backslash_name wit_name = true /\ read_display_name wit_in = Some wit_name /\
+  exists a, wit_parse wit_in = Some a /\ a_name a = wit_name /\ wit_parse (wit_string a) <> Some a.
+Proof.
+  split; [reflexivity|]. split; [reflexivity|]. eexists. split; [reflexivity|]. split; [reflexivity|]. discriminate.
+Qed.
